@@ -406,6 +406,38 @@ theorem C13_debug_nodes_never_influence {V : Type} [PyVal V] (c : ECfg V) (isDeb
     (hrule : isClosedB c (fun n => !isDebug n) = true) (x : TM.Node) (hx : isDebug x = false) :
     den (restrict c (fun n => !isDebug n)) x = den c x := VM.C13_debug_nodes_never_influence c isDebug hrule x hx
 
+/-- C13 / C11 (build-time rejection) as decision logic: `validateB` accepts a table iff no non-debug node depends on a
+    debug node and every setup node depends on setup nodes and constants only — "depends" through a positional
+    argument, a keyword argument or the activation flag. -/
+theorem C13_C11_build_rule (recOf : TM.Node → NodeRec) (nodes : List TM.Node) (m : Marks) :
+    validateB recOf nodes m = true ↔
+      ∀ n ∈ nodes, ∀ r ∈ (recOf n).refs,
+        (m.debug r.src = true → m.debug n = true) ∧
+        (m.setup n = true → m.setup r.src = true ∨ m.isConst r.src = true) := VM.validateB_spec recOf nodes m
+
+/-- C13 for every table the constructor accepts: leaving the debug nodes out changes no production value. -/
+theorem C13_accepted_table_debug_never_influences {V : Type} [PyVal V] (c : ECfg V) (m : Marks)
+    (h : validateB c.recOf c.nodes m = true) (x : TM.Node) (hx : m.debug x = false) :
+    den (restrict c (fun n => !m.debug n)) x = den c x := VM.accepted_table_debug_never_influences c m h x hx
+
+/-- C15 / C11 for every table the constructor accepts: the build rule gives the setup region the semantic theorems
+    need, so a call after any history of calls computes what it computes on a fresh instance. -/
+theorem C15_accepted_table_call_after_history_is_fresh {V : Type} [PyVal V] (i : Inst V) (sel : List TM.Node) (m : Marks)
+    (hsetup : ∀ n, i.dag.isSetup n = m.setup n)
+    (hval : validateB i.dag.recOf i.dag.nodes m = true) (hsel : ∀ n ∈ sel, n ∈ i.dag.nodes)
+    (hconst : ∀ n ∈ sel, m.isConst n = true → (i.dag.recOf n).refs = [])
+    (hpar : ∀ p ∈ i.dag.params, m.setup p = false ∧ m.isConst p = false)
+    (hwf : ∀ (j : Inst V) (op : Op V), WF (opCfg j op))
+    (history : List (List V)) (args : List V) (x : TM.Node) :
+    den (opCfg (runHistory i (history.map (Op.call sel))) (.call sel args)) x = den (opCfg i (.call sel args)) x :=
+  VM.accepted_table_call_after_history_is_fresh i sel m hsetup hval hsel hconst hpar hwf history args x
+
+-- non-vacuity: debug node 2 reads production node 1 (fine); production node 1 reading debug node 2 is refused
+example : validateB (fun n => if n = 2 then ⟨"d", [⟨1, []⟩], [], none⟩ else ⟨"p", [], [], none⟩) [0, 1, 2]
+    ⟨fun n => n == 2, fun _ => false, fun _ => false⟩ = true := by decide
+example : validateB (fun n => if n = 1 then ⟨"p", [⟨2, []⟩], [], none⟩ else ⟨"d", [], [], none⟩) [0, 1, 2]
+    ⟨fun n => n == 2, fun _ => false, fun _ => false⟩ = false := by decide
+
 /-- C18 (`cache_deps_of`): the restart executes exactly the selected nodes that are not in the file. -/
 theorem C18_restart_runs_only_uncached {V : Type} [PyVal V] (c : ECfg V) (f : TM.Node → Bool) (n : TM.Node) :
     n ∈ (seeded c f).nodes ↔ n ∈ c.nodes ∧ f n = false := VM.C18_restart_runs_only_uncached c f n
